@@ -871,6 +871,13 @@ Theorem C03_file_version_independent :
     l_other l1 = l_other l2 /\ l_custom l1 = l_custom l2 /\ l_data l1 = l_data l2.
 Proof. exact file_version_independent. Qed.
 
+(* hs carries the file in memory after the call *)
+Theorem C03_written_state : forall fmtv fmt_diff fmt_pi fstr fzero numeq o m text m' hs,
+  write fmtv fmt_diff fmt_pi fstr fzero numeq o m = WOk text m' ->
+  write_sections fmtv fmt_diff fstr fzero numeq (wo_version o) (wo_wrap o) (col_fmt o 0%nat) m = Some hs ->
+  m' = mkmlas (hs_las hs) (m_index_initial m).
+Proof. exact written_state_is_hs_las. Qed.
+
 Theorem C03_set_wversion_unfold : forall o v,
   set_wversion o v =
   mkwopts v (wo_wrap o) (wo_fmt o) (wo_column_fmt o) (wo_len_numeric_field o) (wo_lhs_spacer o) (wo_spacer o)
@@ -916,3 +923,4 @@ Print Assumptions C03_wrap_ok_unfold.
 Print Assumptions C03_file_hypsb_ok.
 Print Assumptions C03_file_version_independent.
 Print Assumptions C03_set_wversion_unfold.
+Print Assumptions C03_written_state.
